@@ -8,11 +8,13 @@ import (
 	"fmt"
 	"os"
 	"testing"
+	"time"
 )
 
 type vrtCase struct {
 	Harness string            `json:"harness"`
 	Tier    string            `json:"tier"`
+	Prop    string            `json:"prop"`
 	Model   map[string]vrtVal `json:"model"`
 }
 
@@ -26,7 +28,7 @@ type vrtResult struct {
 }
 
 func vrtRunCase(c vrtCase) (res vrtResult) {
-	vrtCur = &vrtRun{model: c.Model, tier: c.Tier}
+	vrtCur = &vrtRun{model: c.Model, tier: c.Tier, prop: c.Prop, start: time.Now()}
 	defer func() {
 		if r := recover(); r != nil {
 			if s, ok := r.(vrtStop); ok {
